@@ -156,6 +156,76 @@ func (l *Literals) AddUnhashable(k int) int {
 	return i
 }
 
+// AddRaw adds an arbitrary literal with the hash class the harness expects for it.
+func (l *Literals) AddRaw(class int, literal string) int {
+	l.Class = append(l.Class, class)
+	l.Bytes = append(l.Bytes, []byte(literal))
+	return len(l.Bytes) - 1
+}
+
+// AddHashFamily adds literals that differ from a base message in exactly one thing. Those that differ in something the
+// de-duplication hash covers (one address of a multi-address From/To/Cc/Reply-To field at the first, middle or last
+// position, In-Reply-To, Subject, the Content-Type / a Content-Type parameter / Content-Disposition / decoded body of one
+// leaf part) get classes of their own (firstClass, firstClass+1, ...); those that differ only in Date, Message-Id or an
+// X- header share the class of the base message. Returns the indices (base first) and the index of the first same-class
+// variant.
+func (l *Literals) AddHashFamily(firstClass int) (all []int, sameFrom int) {
+	type msg struct {
+		date, msgid, from, to, cc, replyTo, inReplyTo, subject, x string
+		ct1, cd1, body1, ct2, cd2, body2                          string
+	}
+	base := msg{date: "Wed, 03 Jan 2024 09:00:00 +0000", msgid: "<fam.0@example.com>",
+		from: "ann@example.com, bob@example.com", to: "alice@example.com, team@example.com, zed@example.com",
+		cc: "c1@example.com, c2@example.com", replyTo: "r1@example.com, r2@example.com", inReplyTo: "<parent.1@example.com>",
+		subject: "family", ct1: "text/plain; charset=utf-8", cd1: "inline", body1: "first part",
+		ct2: "application/octet-stream; name=\"a.bin\"", cd2: "attachment; filename=\"a.bin\"", body2: "second part"}
+	render := func(m msg) string {
+		h := "Date: " + m.date + "\r\nFrom: " + m.from + "\r\nSender: ann@example.com\r\nTo: " + m.to + "\r\nCc: " + m.cc + "\r\nReply-To: " + m.replyTo +
+			"\r\nIn-Reply-To: " + m.inReplyTo + "\r\nSubject: " + m.subject + "\r\nMessage-Id: " + m.msgid + "\r\n"
+		if m.x != "" {
+			h += "X-Trace: " + m.x + "\r\n"
+		}
+		h += "MIME-Version: 1.0\r\nContent-Type: multipart/mixed; boundary=\"famb\"\r\n\r\n"
+		h += "--famb\r\nContent-Type: " + m.ct1 + "\r\nContent-Disposition: " + m.cd1 + "\r\n\r\n" + m.body1 + "\r\n"
+		h += "--famb\r\nContent-Type: " + m.ct2 + "\r\nContent-Disposition: " + m.cd2 + "\r\n\r\n" + m.body2 + "\r\n--famb--\r\n"
+		return h
+	}
+	distinct := []func(*msg){
+		func(m *msg) { m.to = "alex@example.com, team@example.com, zed@example.com" },  // first address of To
+		func(m *msg) { m.to = "alice@example.com, crew@example.com, zed@example.com" }, // middle
+		func(m *msg) { m.to = "alice@example.com, team@example.com, zoe@example.com" }, // last
+		func(m *msg) { m.from = "amy@example.com, bob@example.com" },                   // first address of From
+		func(m *msg) { m.cc = "d1@example.com, c2@example.com" },                       // first address of Cc
+		func(m *msg) { m.cc = "c1@example.com, d2@example.com" },                       // last address of Cc
+		func(m *msg) { m.replyTo = "s1@example.com, r2@example.com" },                  // first address of Reply-To
+		func(m *msg) { m.inReplyTo = "<parent.2@example.com>" },
+		func(m *msg) { m.subject = "family (other subject)" },
+		func(m *msg) { m.ct1 = "text/html; charset=utf-8" },
+		func(m *msg) { m.ct1 = "text/plain; charset=iso-8859-1" },
+		func(m *msg) { m.cd2 = "attachment; filename=\"b.bin\"" },
+		func(m *msg) { m.body1 = "first part, edited" },
+		func(m *msg) { m.body2 = "second part, edited" },
+	}
+	same := []func(*msg){
+		func(m *msg) { m.date = "Thu, 04 Jan 2024 10:30:00 +0000" },
+		func(m *msg) { m.msgid = "<fam.other@example.com>" },
+		func(m *msg) { m.x = "relay-7" },
+	}
+	all = append(all, l.AddRaw(firstClass, render(base)))
+	for i, f := range distinct {
+		m := base
+		f(&m)
+		all = append(all, l.AddRaw(firstClass+1+i, render(m)))
+	}
+	sameFrom = len(l.Bytes)
+	for _, f := range same {
+		m := base
+		f(&m)
+		all = append(all, l.AddRaw(firstClass, render(m)))
+	}
+	return all, sameFrom
+}
+
 // Validate checks the table against the real rfc822.GetMessageHash: class -1 <=> error, equal hashes <=> equal class.
 func (l *Literals) Validate() error {
 	hs := make([]string, len(l.Bytes))
@@ -250,9 +320,6 @@ func (w *World) newGen() error {
 
 func NewWorld(cfg Config, lits *Literals) (*World, error) {
 	w := &World{Cfg: cfg, Lits: lits}
-	if err := lits.Validate(); err != nil {
-		return nil, err
-	}
 	if err := w.newGen(); err != nil {
 		return nil, err
 	}
